@@ -362,6 +362,7 @@ func main() {
 	for _, ns := range []uint32{1, 2} {
 		scs = append(scs, scenario(cfg{R: 1, NStart: ns, Two: true, Events: ev.Pick(r, 2, 3)}))
 	}
+	scs = append(scs, serverConnScenarios()...)
 	scs = append(scs, c12Scenarios(r.Thorough())...)
 	sum := mcx.Explore(r, scs, mcx.Config{Wall: ev.Pick(r, 3*time.Minute, 25*time.Minute)})
 	mcx.Report(r, scs, sum)
